@@ -20,7 +20,7 @@ var profileWeights = map[string]map[string]float64{
 	"determinism": {
 		"block": 10, "el.locking": 5, "el.adversarial": 4, "rel.hashes": 1.5, "rel.deposit": 1.5, "el.bridge": 1, "rel.withdraw": 1,
 		// relayer transactions that fail part-way (C07: "blocks whose transactions fail part-way")
-		"btc.mine": 1.5, "rel.baddeposit": 1.5, "rel.badwithdraw": 1.2, "rel.forged": 1.2, "rel.replay": 0.6, "rel.group": 0.6, "el.params": 0.4, "probe.fuzztx": 0.6,
+		"btc.mine": 1.5, "rel.baddeposit": 1.5, "rel.badwithdraw": 1.2, "rel.forged": 1.2, "rel.replay": 0.6, "rel.group": 0.6, "el.params": 0.4, "probe.fuzztx": 0.6, "rel.bundle": 1.0, "rel.pubkey": 0.3,
 		"p.absent": 0.08, "p.evidence": 0.02, "p.crash": 0.12, "p.reexec": 0.25, "p.skew": 0.10, "p.round": 0.05, "p.engine": 0.05, "p.timejump": 0.04, "p.timecollide": 0.04,
 	},
 	"handover": {
@@ -28,15 +28,15 @@ var profileWeights = map[string]map[string]float64{
 		"p.round": 0.15, "p.crash": 0.10, "p.engine": 0.10, "p.finfault": 0.05, "p.timejump": 0.05, "p.byz": 0.10, "p.timecollide": 0.06,
 	},
 	"relayer": {
-		"block": 10, "rel.hashes": 3, "rel.pubkey": 1, "rel.consolidation": 1, "rel.group": 4, "rel.forged": 6, "rel.replay": 4, "rel.deposit": 1, "rel.withdraw": 2, "el.bridge": 2,
+		"block": 10, "rel.hashes": 3, "rel.pubkey": 1, "rel.consolidation": 1, "rel.group": 4, "rel.forged": 6, "rel.replay": 4, "rel.deposit": 1, "rel.withdraw": 2, "el.bridge": 2, "rel.bundle": 1.5,
 		"p.timejump": 0.10, "p.round": 0.03, "p.crash": 0.02, "p.shadowdiff": 0.25,
 	},
 	"deposits": {
-		"block": 10, "btc.mine": 4, "rel.hashes": 5, "rel.deposit": 8, "rel.baddeposit": 6, "el.params": 2, "rel.pubkey": 0.6,
+		"block": 10, "btc.mine": 4, "rel.hashes": 5, "rel.deposit": 8, "rel.baddeposit": 6, "el.params": 2, "rel.pubkey": 0.6, "rel.bundle": 2,
 		"p.crash": 0.05, "p.engine": 0.03, "p.round": 0.03, "p.shadowdiff": 0.15,
 	},
 	"withdrawals": {
-		"block": 10, "btc.mine": 3, "rel.hashes": 4, "el.bridge": 7, "rel.withdraw": 9, "rel.badwithdraw": 5, "rel.pubkey": 0.4, "rel.deposit": 1,
+		"block": 10, "btc.mine": 3, "rel.hashes": 4, "el.bridge": 7, "rel.withdraw": 9, "rel.badwithdraw": 5, "rel.pubkey": 0.4, "rel.deposit": 1, "rel.bundle": 1.5,
 		"p.crash": 0.04, "p.engine": 0.03, "p.round": 0.03, "p.shadowdiff": 0.15,
 	},
 	"proposal": {
@@ -45,10 +45,10 @@ var profileWeights = map[string]map[string]float64{
 	},
 	"admission": {
 		"block": 10, "probe.admission": 12, "rel.hashes": 1, "rel.group": 2, "rel.deposit": 1,
-		"p.timejump": 0.10, "p.byz": 0.05, "p.shadowdiff": 0.25,
+		"p.timejump": 0.10, "p.byz": 0.20, "p.shadowdiff": 0.25,
 	},
 	"fuzz": {
-		"block": 10, "probe.fuzztx": 10, "probe.fuzzproposal": 4, "el.adversarial": 6, "el.locking": 2, "rel.hashes": 1, "rel.deposit": 1, "el.bridge": 1, "rel.withdraw": 1,
+		"block": 10, "probe.fuzztx": 10, "probe.fuzzproposal": 4, "rel.bundle": 1, "el.adversarial": 6, "el.locking": 2, "rel.hashes": 1, "rel.deposit": 1, "el.bridge": 1, "rel.withdraw": 1,
 		"p.byz": 0.10, "p.junk": 0.10, "p.shadowdiff": 0.30,
 	},
 	"enum": {
@@ -70,7 +70,7 @@ var propertyProfiles = map[string][]string{
 	"C07": {"determinism", "locking", "engine", "handover", "deposits", "withdrawals", "relayer"},
 	"C08": {"proposal", "handover", "locking", "engine"},
 	"C09": {"engine", "handover", "determinism"},
-	"C10": {"admission", "relayer", "fuzz"},
+	"C10": {"admission", "relayer", "fuzz", "proposal"},
 	"C11": {"locking", "determinism", "export"},
 	"C12": {"locking", "determinism", "export"},
 	"C13": {"locking", "determinism", "export"},
@@ -186,9 +186,12 @@ func drawConfig(profile string, tier string, r *Rand) Config {
 		c.ELMaxOps = []int{40, 120}[r.Intn(2)]
 		c.Bursts = true
 	}
+	if (profile == "locking" || profile == "determinism") && !c.FaultFree && r.Chance(0.06) {
+		c.LastExit = true
+	}
 	if c.FaultFree {
 		c.Weights["el.adversarial"] = 0
-		for _, k := range []string{"rel.forged", "rel.replay", "rel.baddeposit", "rel.badwithdraw", "probe.fuzztx", "probe.fuzzproposal"} {
+		for _, k := range []string{"rel.forged", "rel.replay", "rel.baddeposit", "rel.badwithdraw", "rel.bundle", "probe.fuzztx", "probe.fuzzproposal"} {
 			delete(c.Weights, k)
 		}
 	}
